@@ -9,7 +9,7 @@
                        breaks (\r\n, lone \r, lone \n count once each), character = UTF-16 code
                        units after the last line-break character;
    - inside_crlf pre post   the cut lies between the \r and the \n of a pair;
-   - ends_crlf rs      rs ends with \r\n (the cut lies right after a pair). *)
+   - ends_crlf rs      rs ends with \r\n (the cut lies right after a pair; only used to name an input class). *)
 From verif Require Import lib.Base lib.Utf8 model.C44 proofs.C44_proofs.
 
 (* The range loop is modelled with fuel = len(s): it never runs out (every rune
@@ -52,36 +52,23 @@ Theorem C44_utf16_units_counted : forall s pre post, items_of s = pre ++ post ->
 Proof. exact utf16_units_counted. Qed.
 Print Assumptions C44_utf16_units_counted.
 
-(* from_to_roundtrip.  The full statement — for every rune boundary that is not
-   inside a CRLF pair,
-     forall s pre post, items_of s = pre ++ post ->
-       inside_crlf (runes pre) (runes post) = false ->
-       lspPositionToIdx s (lspPositionFromIdx s (Z.of_nat (wsum pre))) = wsum pre
-   — is FALSE of the code (DESIGN section 7 item 16): *)
-Theorem C44_from_to_roundtrip_refuted :
-  exists s pre post, items_of s = pre ++ post /\
-    inside_crlf (runes pre) (runes post) = false /\
-    lspPositionToIdx s (lspPositionFromIdx s (Z.of_nat (wsum pre))) <> wsum pre.
-Proof. exact from_to_roundtrip_refuted. Qed.
-Print Assumptions C44_from_to_roundtrip_refuted.
-
-(* ... it holds for every boundary that is not right after a \r\n pair: *)
-Theorem C44_from_to_roundtrip_partial : forall s pre post, items_of s = pre ++ post ->
-  ends_crlf (runes pre) = false ->
+(* from_to_roundtrip: every rune boundary that is not strictly inside a \r\n pair
+   and its position round-trip (boundaries right after a pair included). *)
+Theorem C44_from_to_roundtrip : forall s pre post, items_of s = pre ++ post ->
+  inside_crlf (runes pre) (runes post) = false ->
   lspPositionToIdx s (lspPositionFromIdx s (Z.of_nat (wsum pre))) = wsum pre.
-Proof. exact from_to_roundtrip_partial. Qed.
-Print Assumptions C44_from_to_roundtrip_partial.
+Proof. exact from_to_roundtrip. Qed.
+Print Assumptions C44_from_to_roundtrip.
 
-(* ... and right after a pair the answer is always the offset of the \n inside it
-   (so the failing class is exactly "line start after \r\n"): *)
-Theorem C44_to_idx_after_crlf : forall s a0 w1 w2 post,
-  items_of s = (a0 ++ [(CR, w1); (LF, w2)]) ++ post ->
-  lspPositionToIdx s (pos_of_prefix (runes (a0 ++ [(CR, w1); (LF, w2)]))) = wsum (a0 ++ [(CR, w1)]).
-Proof. exact to_idx_after_crlf. Qed.
-Print Assumptions C44_to_idx_after_crlf.
+(* the position of such a boundary maps to exactly that boundary *)
+Theorem C44_to_idx_exact : forall s pre post, items_of s = pre ++ post ->
+  inside_crlf (runes pre) (runes post) = false ->
+  lspPositionToIdx s (pos_of_prefix (runes pre)) = wsum pre.
+Proof. exact to_idx_exact. Qed.
+Print Assumptions C44_to_idx_exact.
 
 (* the other round trip (position -> offset -> position) holds for every exact
-   position without exception *)
+   position, also the position of a boundary inside a pair *)
 Theorem C44_to_from_roundtrip : forall s pre post, items_of s = pre ++ post ->
   lspPositionFromIdx s (Z.of_nat (lspPositionToIdx s (pos_of_prefix (runes pre))))
   = pos_of_prefix (runes pre).
@@ -100,22 +87,16 @@ Theorem C44_oracle_from_idx_sound : forall s idx obs,
 Proof. exact check_from_idx_sound. Qed.
 Print Assumptions C44_oracle_from_idx_sound.
 
-(* The model meets the oracles: lspPositionFromIdx always; lspPositionToIdx for
-   every position outside the recorded finding class, and not inside it. *)
+(* The model meets the oracles for every text, position and offset. *)
 Theorem C44_from_idx_meets_oracle : forall s idx,
   check_from_idx s idx (lspPositionFromIdx s idx) = true.
 Proof. exact from_idx_meets_oracle. Qed.
 Print Assumptions C44_from_idx_meets_oracle.
 
-Theorem C44_to_idx_meets_oracle_partial : forall s p, line_start_after_crlf s p = false ->
+Theorem C44_to_idx_meets_oracle : forall s p,
   check_to_idx s p (Z.of_nat (lspPositionToIdx s p)) = true.
-Proof. exact to_idx_meets_oracle_partial. Qed.
-Print Assumptions C44_to_idx_meets_oracle_partial.
-
-Theorem C44_to_idx_meets_oracle_refuted :
-  exists s p, check_to_idx s p (Z.of_nat (lspPositionToIdx s p)) = false.
-Proof. exact to_idx_meets_oracle_refuted. Qed.
-Print Assumptions C44_to_idx_meets_oracle_refuted.
+Proof. exact to_idx_meets_oracle. Qed.
+Print Assumptions C44_to_idx_meets_oracle.
 
 (* every_request_answered: for every history of requests from every state of the
    documents map, each request yields exactly one outcome, a reply or one of the
@@ -189,24 +170,14 @@ Theorem C44_model_session_corresponds : forall rs m, corr_events m (model_events
 Proof. exact model_session_corresponds. Qed.
 Print Assumptions C44_model_session_corresponds.
 
-(* Updates handled back to back.  The model allows the publications of unawaited
-   updates to arrive in any order (updateDocument publishes from a new goroutine
-   each time).  The full statement
-     forall u ups order, ups <> [] -> In order (burst_orders u ups) ->
-       check_burst u ups order = true
-   (the last publication a client receives for a document has the ranges of the
-   document's latest parse errors) is FALSE of the code: *)
-Theorem C44_burst_last_publication_refuted :
-  exists u ups order, In order (burst_orders u ups) /\ check_burst u ups order = false.
-Proof. exact burst_last_publication_refuted. Qed.
-Print Assumptions C44_burst_last_publication_refuted.
-
-(* ... it holds for the arrival order of awaited updates (update order): *)
-Theorem C44_burst_last_publication_partial : forall u ups, ups <> [] ->
-  In (burst_pubs_in_order u ups) (burst_orders u ups) /\
-  check_burst u ups (burst_pubs_in_order u ups) = true.
-Proof. exact burst_in_order_ok. Qed.
-Print Assumptions C44_burst_last_publication_partial.
+(* burst_last_publication: updates handled back to back publish in update order
+   (synchronously, one handler at a time), so for every arrival order the model
+   allows, the last publication a client receives for a document has the ranges of
+   the document's latest parse errors. *)
+Theorem C44_burst_last_publication : forall u ups order, ups <> [] ->
+  In order (burst_orders u ups) -> check_burst u ups order = true.
+Proof. exact burst_last_publication. Qed.
+Print Assumptions C44_burst_last_publication.
 
 (* ---- non-vacuity ---- *)
 From Coq Require Import String.
@@ -214,9 +185,9 @@ From Coq Require Import String.
 Example C44_ex_astral_units :
   lspPositionFromIdx (hx "61f09f98800d0ac3a9"%string) 5 = mkPos 0 3
   /\ lspPositionToIdx (hx "61f09f98800d0ac3a9"%string) (mkPos 0 2) = 5%nat   (* between the surrogate halves *)
-  /\ lspPositionToIdx (hx "61f09f98800d0ac3a9"%string) (mkPos 0 99) = 6%nat  (* past the end of the line *)
+  /\ lspPositionToIdx (hx "61f09f98800d0ac3a9"%string) (mkPos 0 99) = 7%nat  (* past the end of the line *)
   /\ lspPositionFromIdx (hx "61f09f98800d0ac3a9"%string) 7 = mkPos 1 0
-  /\ lspPositionToIdx (hx "61f09f98800d0ac3a9"%string) (mkPos 1 0) = 6%nat.  (* the finding *)
+  /\ lspPositionToIdx (hx "61f09f98800d0ac3a9"%string) (mkPos 1 0) = 7%nat.  (* line start after \r\n *)
 Proof. vm_compute. repeat split. Qed.
 
 Example C44_ex_session :
